@@ -6,8 +6,8 @@
  "replace": ["crypto_aesctr_stream_cipherblock_use", "crypto_aesctr_stream_cipherblock_generate",
              "crypto_aesctr_stream_pre_wholeblock", "crypto_aesctr_stream_post_wholeblock"],
  "annotate": ["crypto/crypto_aesctr.c", "crypto/crypto_aesctr_shared.c"],
- "defines": ["VERIF_HALLOC"],
- "matrix": {"BUFMODE": [0, 1, 2, 3]},
+ "defines": ["VERIF_HALLOC", "C02_FIXED_OBJ"],
+ "matrix": {"BUFMODE": [0, 1]},
  "timeout": 400,
  "assumptions": ["generic build (no CPUSUPPORT_*): portable path only",
                  "buffer objects <= CTR_MAXLEN (64) bytes; stream position, call length and loop count are unbounded (loop contract)",
